@@ -48,6 +48,46 @@ def scenario(hist, entry, rng):
                     hist.obs(o, m, X, "BehavesIdentically", note="after cross-feed / clone")
 
 
+def random_history(hist, entry, rng, length):
+    """a long random history on a small population of instances of one class: set_params (single keys, several keys, the
+    full parameter set of another instance), clone, self-feed - validated event by event"""
+    pop = [entry.make(0), entry.make(1)]
+    for o in pop:
+        hist.new(o)
+    base = {k for k in vars(entry.make(0)) if k.endswith("_")}
+    plain = [(k, alts) for k, alts in entry.sets]
+    for _ in range(length):
+        op = rng.choice(["set", "set", "set", "multi", "clone", "cross", "self"])
+        a = rng.choice(pop)
+        if op in ("set", "multi"):
+            view = lifecycle.view_of(a)
+            cand = [(k, alts) for k, alts in plain if k in view]
+            if not cand:
+                continue
+            if op == "set":
+                k, alts = rng.choice(cand)
+                hist.set(a, {k: rng.choice(alts)()})
+            else:
+                scal = [(k, alts) for k, alts in cand if not hasattr(alts[0](), "get_params")
+                        and not (isinstance(alts[0](), list) and alts[0]() and hasattr(alts[0]()[0], "get_params"))]
+                rng.shuffle(scal)
+                kv = {}
+                for k, alts in scal[:rng.randint(2, 3)]:
+                    if not any(k.startswith(k2 + "__") or k2.startswith(k + "__") for k2 in kv):
+                        kv[k] = rng.choice(alts)()
+                if kv:
+                    hist.set(a, kv)
+        elif op == "clone" and len(pop) < 5:
+            c = hist.clone(a, base)
+            if c is not None:
+                pop.append(c)
+        elif op == "cross":
+            b = rng.choice(pop)
+            hist.crossfeed(a, b)
+        elif op == "self":
+            hist.crossfeed(a, a)
+
+
 def classify(t, v):
     if v.fails:
         clause, _, det = v.fails[0]
@@ -71,11 +111,14 @@ def run(ctx):
     traces = []
     tid = 0
     for entry in classes.entries():
-        for rep in range(3 if thorough else 1):
+        for rep in range(12 if thorough else 2):
             tid += 1
             hist = lifecycle.History(tid, "C01 " + entry.name, entry.name)
             try:
-                scenario(hist, entry, rng)
+                if rep == 0:
+                    scenario(hist, entry, rng)
+                else:
+                    random_history(hist, entry, rng, rng.randint(8, 30))
             except Exception as e:
                 import traceback
                 ctx.violation("ScenarioRuns", entry.name, type(e).__name__, traceback.format_exc()[-600:])
